@@ -5,8 +5,8 @@ Mirrors, statement by statement:
 * `univers.version_range.NpmVersionRange.from_native` (`"*"`, `split("||")`, the `" - "` test,
   the `range.split()` token loop with its comparator-then-version state, the local caret
   expansion on a version whose prerelease is temporarily cleared, `split_req` with default `=`,
-  `lstrip("vV")`), `get_npm_version_constraints_from_semver_npm_spec` (INCLUDING the local that is
-  never assigned when the simplified clause is a single `Range`: `UnboundLocalError`),
+  `lstrip("vV")`), `get_npm_version_constraints_from_semver_npm_spec` (the `AttributeError` of
+  `NpmSpec` re-raised as `ValueError`, a single `Range` wrapped into an `AllOf`),
   `get_allof_constraints`, `split_req`;
 * `semantic_version.NpmSpec` 2.8.5: `Parser.parse` (`JOINER`, `strip`, `HYPHEN`, `split(' ')`,
   `NPM_SPEC_BLOCK` as a recogniser returning its groups, the prerelease / non-prerelease clause
@@ -385,16 +385,14 @@ def anyofCons : List (List Clause) → Except TErr (List TCon)
         | .error e => .error e
         | .ok more => .ok (a ++ more)
 
-/-- `get_npm_version_constraints_from_semver_npm_spec(string, cls)` -/
+/-- `get_npm_version_constraints_from_semver_npm_spec(string, cls)`: an `AttributeError` of
+`NpmSpec(string)` is re-raised as `ValueError`; a clause that simplifies to a single `Range`
+is wrapped into an `AllOf` -/
 def specCons (string : List Char) : Except TErr (List TCon) :=
   match specParse string with
+  | .error .AttributeError => .error .ValueError
   | .error e => .error e
-  | .ok [cs] =>
-    -- `AllOf(...).simplify()`: one member left ↦ that `Range`; then neither `AnyOf` nor `AllOf`
-    -- and `return anyof_constraints` reads a local that was never assigned
-    match cs.eraseDups with
-    | [_] => .error .UnboundLocalError
-    | l => allofCons l
+  | .ok [cs] => allofCons cs.eraseDups
   | .ok sets => anyofCons sets
 
 /-! ### `NpmVersionRange.from_native` -/
